@@ -100,6 +100,14 @@ CHECKS = {
                      'requests on one connection: the bytes written are decoded by http.client (independent implementation) and '
                      'status, body, Content-Length, no-body statuses, close-iff-announced and per-connection state reset are checked',
                 note='trusted: z3/pathex, the web rig, http.client as reference; body sizes limited to {0,1,5,4097}'),
+    'C16': dict(engine='pathex+crosshair', technique=TECH_XH, ref='DESIGN.md 4/C16',
+                text='bounded symbolic execution of the real Static dispatcher, serve_file and get_ranges: request paths are sequences '
+                     'of up to 3 (thorough: 4) segment choices from a hostile/benign alphabet over a real directory tree with secrets '
+                     'outside the docroot, behind the HTTP front end and handed over directly (markers and an open() audit hook as '
+                     'oracle); get_ranges with a symbolic header string and length under CrossHair, and with a,b,n as solver-enumerated '
+                     'ints against an RFC 7233 reference; Range grammar served on files of size 0/1/10',
+                note='trusted: z3/pathex, CrossHair, the RFC 7233 reference in harness/c16.py, http.client; paths limited to the segment alphabet '
+                     '(normpath is C code)'),
 }
 
 NOT_YET = {
